@@ -1,6 +1,7 @@
 package main
 
 import (
+	"math"
 	"errors"
 	"fmt"
 	"reflect"
@@ -16,6 +17,9 @@ import (
 // ---------------------------------------------------------------------------
 
 var timeBase = time.Date(2020, 1, 1, 0, 0, 0, 0, time.UTC)
+
+// the abstract value of a float leaf that stands for NaN (ZogData NaNV)
+const nanV = 8
 
 func concTime(n int) time.Time {
 	if n == 0 {
@@ -49,6 +53,9 @@ func concNative(ty string, n int) any {
 	case "bool":
 		return n == 1
 	case "float":
+		if n == nanV {
+			return math.NaN()
+		}
 		return float64(n)
 	case "time":
 		return concTime(n)
@@ -65,6 +72,9 @@ func concString(ty string, n int) string {
 	case "bool":
 		return strconv.FormatBool(n == 1)
 	case "float":
+		if n == nanV {
+			return "NaN"
+		}
 		return strconv.Itoa(n) + ".0"
 	case "time":
 		return concTime(n).Format(time.RFC3339)
@@ -103,6 +113,9 @@ func abstractVal(v any) int {
 		}
 		return 0
 	case float64:
+		if math.IsNaN(x) {
+			return nanV
+		}
 		if x == float64(int(x)) && x >= 0 && x <= 9 {
 			return int(x)
 		}
@@ -324,15 +337,23 @@ func setValue(rv reflect.Value, n *Node, in *Input) {
 }
 
 // pre-fill a Parse destination with "never written" sentinels (InitDest in the spec)
-func initDest(rv reflect.Value, n *Node, pre bool) {
+func initDest(rv reflect.Value, n *Node, pre int) {
 	switch n.K {
 	case "pre":
 		initDest(rv, n.Elem(), pre)
 	case "ptr":
-		if pre {
+		if pre >= 1 {
 			p := reflect.New(rv.Type().Elem())
 			initDest(p.Elem(), n.Elem(), pre)
 			rv.Set(p)
+		}
+	case "slice":
+		if pre == 2 {
+			// a destination that was used before: the slice still holds two stale elements
+			s := reflect.MakeSlice(rv.Type(), 2, 2)
+			initDest(s.Index(0), n.Elem(), pre)
+			initDest(s.Index(1), n.Elem(), pre)
+			rv.Set(s)
 		}
 	case "prim":
 		if n.Ty != "bool" {
